@@ -15,6 +15,9 @@ import (
 	"github.com/russellhaering/goxmldsig/etreeutils"
 )
 
+// the case set "validate2" (verifier model with canonicalisers AND re-parse modelled); nil outside the DSIG runner
+var dgReaderSet *CaseSet
+
 func init() {
 	runners["DSIG"] = func(c *Ctx) {
 		c.Rep.Rule = "elements handed to goxmldsig ValidationContext.Validate: (a) small free-form documents signed by the mini-IdP (6 canonicalisers x 4 signature methods x KeyInfo present/absent/foreign/garbage) followed by 0..3 of 60 signature-structure edits (several Signature elements, Reference pointing elsewhere / empty URI / non-# first byte, several References in both orders re-signed by the IdP, Signature nested deeper or inside ds:Object, missing or duplicated SignedInfo/KeyInfo/SignatureValue and their children, wrong name spaces, undeclared and reserved prefixes before and after the signature, element counts around the 1000-visit limit, transform lists without / with two enveloped-signature transforms, unknown algorithms, prefix lists, white space and garbage in base64 fields, tampering), (b) SAML Responses / detached Assertions of the mini-IdP with the attacker edits of C01; every case under a store composition out of 9 and a clock that is swept over NotBefore-1s, NotBefore, NotBefore+1s, NotAfter-1s, NotAfter, NotAfter+1s of the signing certificate in a third of the cases; non-trivial = edited, non-default store or boundary clock; distinct by (labels, outcome)"
@@ -24,6 +27,15 @@ func init() {
 			"fun i => match i with (t, store, now, root, et, em) => dsig_obs_model t store now root et em end")
 		cs.PerShard = 24
 		cs.Prelude = "Local Open Scope nat_scope.\n" // so that coqc prints the indices of mismatching cases as plain numbers
+		// the same cases with the re-parse ALSO answered by the model (XmlTok.read_tree instead of the table computed with
+		// etree): DsigReader.dsig_obs_model2; third component = entries of the reparse table on which model and etree differ
+		// fourth component: the premise of the round-trip theorems (P_DsigReader.c14n_wf) evaluated on the presented element
+		dgReaderSet = c.NewSet("validate2", "Base Time Xml Ns Response Dsig Canon XmlTok DsigReader P_DsigReader",
+			"(oracle_tables * list cert * instant * node * option node * option node)",
+			"fun i => match i with (t, store, now, root, et, em) => dsig_obs_reader t store now root et em end")
+		dgReaderSet.PerShard = 24
+		dgReaderSet.Prelude = cs.Prelude
+		defer func() { dgReaderSet = nil }()
 		sc := c.NewSet("schema", "Base SchemaDefs Schema Dsig", "unit", "fun _ => schema_val dsig_schema")
 		sc.Add("tt", dgSchemaVal(), "struct tags of goxmldsig/types read by reflection")
 		dgPrepStream(c, c.N(300, 6000))
@@ -42,6 +54,10 @@ func init() {
 		dgCanonStream(c, c.N(260, 5200))
 		// fixed witnesses of Prop_C08's layout theorems (no random draws)
 		for _, k := range dgLayoutFixedCases() {
+			dgRunCase(c, cs, k)
+		}
+		// fixed cases about the re-read of the verified bytes (no random draws)
+		for _, k := range dgReaderFixedCases() {
 			dgRunCase(c, cs, k)
 		}
 	}
@@ -1262,6 +1278,71 @@ func dgLayoutFixedCases() []*dgCase {
 		k := &dgCase{el: d2.Root(), store: []*KeyPair{w.IdP1}, now: baseNow, labels: labels, ledger: led, xml: xmlText}
 		k.mustOK = expect == "ok"
 		k.expectClass = expect
+		out = append(out, k)
+	}
+	return out
+}
+
+// dgReaderFixedCases: a U+000D that reaches a SignedInfo value through a character reference.  findSignature reads the
+// Signature element through etree's serialisation (raw CR written, read back as LF), validateSignature reads the canonical
+// SignedInfo bytes ("&#xD;") directly with xml.Unmarshal (the CR stays): the two readings of Reference/@URI differ.
+//
+//	0: ID="_cr<LF>", URI="#_cr&#xD;", SignedInfo re-signed by the IdP: found by findSignature (URI read as "#_cr<LF>"), the
+//	   signature verifies, the reference re-read from the verified bytes is "#_cr<CR>" and matches nothing: "missing-reference"
+//	1: ID="_cr&#xD;", URI="#_cr&#xD;": findSignature already reads the URI as "#_cr<LF>": no reference matches, "missing"
+//	2: control, ID="_cr<LF>" and URI="#_cr&#xA;": accepted
+func dgReaderFixedCases() []*dgCase {
+	w := getWorld()
+	var out []*dgCase
+	for v := 0; v < 3; v++ {
+		led := newDgLedger()
+		doc := etree.NewDocument()
+		root := doc.CreateElement("m:Root")
+		root.CreateAttr("xmlns:m", "urn:example:m")
+		root.CreateAttr("ID", "_cr\n")
+		root.CreateElement("m:Issuer").SetText("idp")
+		root.CreateElement("m:Item").SetText("hello")
+		o := &SignOpts{Key: w.IdP1, C14N: "exc", SigAlg: dsig.RSASHA256SignatureMethod, AfterIssuer: true}
+		sig := dgSign(doc, root, o, led)
+		ref := dgChild(dgChild(sig, "SignedInfo"), "Reference")
+		if ref == nil {
+			continue
+		}
+		labels := []string{"fixed-reader", "key=" + o.Key.Name, "c14n=" + o.C14N}
+		expect := "ok"
+		switch v {
+		case 0:
+			ref.CreateAttr("URI", "#_cr\r")
+			if !dgResign(sig, o.Key, led) {
+				continue
+			}
+			labels = append(labels, "uri-cr-by-reference,id-lf,resigned")
+			expect = "missing-reference"
+		case 1:
+			ref.CreateAttr("URI", "#_cr\r")
+			root.CreateAttr("ID", "_cr\r")
+			if !dgResign(sig, o.Key, led) {
+				continue
+			}
+			labels = append(labels, "uri-cr-by-reference,id-cr-by-reference,resigned")
+			expect = "missing"
+		case 2:
+			labels = append(labels, "uri-lf,id-lf")
+		}
+		b, err := doc.WriteToBytes()
+		if err != nil {
+			continue
+		}
+		// etree writes a U+000D / U+000A of an attribute value raw; put the references back so that the reader sees those values
+		xmlText := strings.ReplaceAll(strings.ReplaceAll(string(b), "\r", "&#xD;"), "_cr\n", "_cr&#xA;")
+		d2 := etree.NewDocument()
+		if err := d2.ReadFromString(xmlText); err != nil || d2.Root() == nil {
+			continue
+		}
+		k := &dgCase{el: d2.Root(), store: []*KeyPair{w.IdP1}, now: baseNow, labels: labels, ledger: led, xml: xmlText}
+		k.mustOK = expect == "ok"
+		k.expectClass = expect
+		k.ledgerPartial = v != 2
 		out = append(out, k)
 	}
 	return out
